@@ -3,6 +3,7 @@ import OmplModel.Proofs.CopyArchive
 import OmplModel.Proofs.CopyState
 import OmplModel.Proofs.CopyCsd
 import OmplModel.Proofs.CopyCommon
+import OmplModel.Proofs.CopyWcFix
 /-!
 C09 — copies and persisted data reproduce states and planner graphs exactly.
 
@@ -89,6 +90,29 @@ theorem reals_roundtrip (sp : Sp) (st : St) (rs : List Nat) (hok : sp.ok = true)
 
 example : copyFromReals (.compound 0 [.discrete 1, .real 2 2]) (.comp [.leaf [.i32 7], .leaf [.f64 1, .f64 2]]) [8, 9]
     = .comp [.leaf [.i32 7], .leaf [.f64 8, .f64 9]] := by rfl
+
+/-- with the proposed repair of F32 (`notes/C09-fix-F32.diff`: the helpers descend only into genuine
+`CompoundStateSpace` objects, a wrapper is an opaque leaf) the value locations enumerate every double exactly once and in
+order for **every** space tree — no `Sp.ok` hypothesis — and the repair changes nothing on `ok` trees.  The driver runs
+these definitions when the check observes the repaired behaviour on the code under test (`copy wc=fixed`). -/
+theorem valueLocations_repaired_enumerates (sp : Sp) :
+    (valueLocationsF sp).map (resolve sp) = (realAddrs sp).map some ∧ (valueLocationsF sp).length = nReals sp ∧
+    (sp.ok = true → valueLocationsF sp = valueLocations sp) :=
+  ⟨valueLocationsF_enumerates sp, valueLocationsF_length sp, valueLocationsF_eq_of_ok sp⟩
+
+example : (valueLocationsF (.compound 0 [.wrapper 1 (.compound 2 [.real 3 1])])).length = 1 ∧
+    (valueLocations (.compound 0 [.wrapper 1 (.compound 2 [.real 3 1])])).length = 0 := by decide
+
+/-- reals round trip with the repair, for every space tree and every fitting state -/
+theorem reals_roundtrip_repaired (sp : Sp) (st : St) (hf : fits sp st = true) :
+    copyFromRealsF sp st (copyToRealsF sp st) = st ∧
+    (∀ rs, rs.length = nReals sp → copyToRealsF sp (copyFromRealsF sp st rs) = rs) ∧
+    (∀ rs q, q ∉ realAddrs sp → (copyFromRealsF sp st rs).get q = st.get q) :=
+  ⟨fromRealsF_toRealsF sp st hf, fun rs hl => toRealsF_fromRealsF sp st rs hf hl,
+   fun rs q hq => copyFromRealsF_frame sp st rs q hq⟩
+
+example : copyToRealsF (.compound 0 [.wrapper 1 (.compound 2 [.real 3 1, .so2 4])]) (.comp [.wrap (.comp [.leaf [.f64 7], .leaf [.f64 8]])])
+    = [7, 8] := by decide
 
 /-! ## partial copies -/
 
